@@ -139,7 +139,12 @@ public:
           {
             Job job = {0, 0};
             if (_queue.push(job))
+            {
               --_threadCount;
+              // wake a worker for the null job: with every worker asleep it would otherwise stay
+              // in the queue, and a queue of capacity one would never accept another job
+              _enqueuedSignal.set();
+            }
           }
           for (PoolList<ThreadContext>::Iterator i = _threads.begin(), end = _threads.end(); i != end;)
           {
